@@ -164,27 +164,35 @@ var verifC05Seeds = [...]string{
 	`try { throw 1 } catch e { } finally { }`,
 	`const (a = iota; b); var (c, d)`,
 	`m := {a: [1, 2.5, 'c', 3u]}; m.a[0]++`,
-	`return x ? y : z.w[1:2]`,
+	`x := {w: [1, 2, 3]}; return x ? 1 : x.w[1:2]`,
 	`param (p, ...q); global g; import("m")`,
 	"s := `raw` + \"e\\n\"; /* c */ // d",
-	`if a := 1; a { } else if b { } else { }`,
-	`for k, v in x { break; continue }`,
-	`x, y := f(...z); x &^= 1 << 2`,
+	`if a := 1; a { } else if !a { } else { }`,
+	`for k, v in [1, 2] { break; continue }`,
+	`f := func(...z) { return z }; x, y := f(...[1]); x &^= 1 << 2`,
+	`m := import("m"); k := m + 1; return [m, k]`,
 }
 
 // VerifC05Holes: a seed script with "width" adjacent bytes at position "pos"
-// replaced by arbitrary bytes, every combination of compiler options: Compile
+// replaced by (ins=0) or preceded by (ins=1) arbitrary bytes, every combination of compiler options: Compile
 // (and Eval, and module compilation) return Bytecode or an error; success
 // means well-formed Bytecode.
 func VerifC05Holes() {
 	seed := verifC05Seeds[verifrt.Param("seed")]
 	pos := verifrt.Param("pos")
 	w := verifrt.Param("width")
-	verifrt.Assume(pos+w <= len(seed))
 	hole := verifrt.Bytes("h", w)
-	src := []byte(seed)
-	for i := 0; i < w; i++ {
-		src[pos+i] = hole[i]
+	var src []byte
+	if verifrt.Param("ins") == 1 {
+		// the arbitrary bytes are inserted before position pos
+		verifrt.Assume(pos <= len(seed))
+		src = append(append(append(src, seed[:pos]...), hole...), seed[pos:]...)
+	} else {
+		verifrt.Assume(pos+w <= len(seed))
+		src = []byte(seed)
+		for i := 0; i < w; i++ {
+			src[pos+i] = hole[i]
+		}
 	}
 	verifC05CompileAll(src)
 }
@@ -221,6 +229,12 @@ func verifC05CompileAll(src []byte) {
 				if err != nil {
 					bc = nil
 				}
+				// whatever happened to the fragment, the session accepts a later one
+				ok := verifrt.Bounded(3_000_000, func() {
+					_, _, err2 := e.Run(context.Background(), []byte(`w9 := import("m"); return w9`))
+					verifrt.Assert(err2 == nil || err != nil, "session-survives-fragment")
+				}, e.VM.Abort)
+				_ = ok
 			}
 		case 2:
 			mm.AddSourceModule("hole", src)
